@@ -178,7 +178,8 @@ PROPERTY = {
     'namespace': 'C14',
     'units': ['AtomicCounts'],
     'required_theorems': ['C14.escape_roundtrip', 'C14.single_line', 'C14.merge_last_wins', 'C14.spans_root_to_leaf', 'C14.insert_sorted', 'C14.render_roundtrip', 'C14.record_is_one_json_object', 'C14.roundtrip', 'C14.event_field_present', 'C14.recordInto_wf', 'C14.eventObj_wf',
-                          'C14.record_merge_code_fact', 'C14.no_recorded_field_lost', 'C14.lost_record_witness'],
+                          'C14.record_merge_code_fact', 'C14.no_recorded_field_lost', 'C14.lost_record_witness',
+                          'C14.stream_roundtrip', 'C14.output_is_one_object_per_line'],
     'streams': [_s],
     'rule': 'one case = the JSON formatter with random level/target/flatten_event/current_span/span_list and 3-14 ops: events with 0-4 fields whose names and string values draw from quotes, backslashes, every kind of control '
             'character, DEL, U+2028/9, astral code points; i64/u64 extremes; floats incl. NaN/inf; bools; Debug values; raw-identifier names; spans (hostile names) declared with 0-4 fields, some empty, entered, and recorded into '
